@@ -11,6 +11,9 @@ impl Exec {
         match toks[0] {
             "off" => c35::exec(false, &toks[1..]),
             "offt" => c35::exec(true, &toks[1..]),
+            "wop" => c15::exec(&toks[1..]),
+            "dec" => c06::exec_dec(&toks[1..]),
+            "enc" => c06::exec_enc(&toks[1..]),
             _ => "bad-op".into(),
         }
     }
